@@ -46,10 +46,17 @@ Definition slice_pad_len (len : nat) (sp : (option Z * option Z) * (Z * Z)) : Z 
 Ltac la :=
   first [ reflexivity | lia | congruence | (progress f_equal; la) ].
 
-Ltac split_tests :=
-  repeat match goal with
-         | |- context [if ?c then _ else _] => destruct c eqn:?
-         end.
+Ltac leaf := first [ la | (exfalso; lia) ].
+
+Ltac split1 :=
+  match goal with
+  | |- context [if ?c then _ else _] =>
+      match c with
+      | context [if _ then _ else _] => fail 1
+      | _ => destruct c eqn:?
+      end
+  end.
+Ltac split_tests := repeat (split1; cbn [fst snd] in * ).
 
 (* parity of a natural number in a form lia understands *)
 Lemma even_cases (k : nat) :
@@ -71,7 +78,7 @@ Lemma gen_shift_center_index_eq_model :
   forall n, 0 <= n -> gen_shift_center_index n = Z.of_nat (shift_center_index (Z.to_nat n)).
 Proof.
   intros n Hn. unfold gen_shift_center_index, shift_center_index. cbv zeta.
-  parity (Z.to_nat n); split_tests; lia.
+  parity (Z.to_nat n); split_tests; leaf.
 Qed.
 
 (* ------------------------------------------------------------------ Dataset.pad(output_shape) *)
@@ -93,7 +100,7 @@ Lemma gen_crop_slice_eq_model :
 Proof.
   intros len b a.
   unfold gen_crop_slice, slice_bounds, crop_bounds, norm_idx. cbv zeta. cbn [fst snd].
-  split; split_tests; cbn [fst snd]; split_tests; la.
+  split; split_tests; leaf.
 Qed.
 
 (* ------------------------------------------------------------------ Dataset.bin *)
@@ -149,7 +156,7 @@ Proof.
   intros n f ra Hn Hf.
   rewrite eff_len_Z, blocks_Z by lia.
   unfold gen_bin_blocks. cbv zeta.
-  split; [| intros e]; split_tests; try lia; rewrite ?Z.div_mul by lia; la.
+  split; [| intros e]; split_tests; rewrite ?Z.div_mul by lia; leaf.
 Qed.
 
 (* third loop of bin: calibration of a binned axis, rational arithmetic (floats as exact
@@ -166,17 +173,57 @@ Proof.
   unfold gen_bin_meta, bin_sampling, bin_origin, qc_of_nat, half. cbv zeta. cbn [fst snd].
   rewrite Z2Nat.id by lia.
   split; apply Qc_is_canon;
-    unfold Qcmult, Qcplus, Qcminus, Q2Qc; cbn [this];
-    rewrite ?Qred_correct;
-    replace (f - 1) with (f + - (1)) by lia;
-    rewrite ?inject_Z_plus, ?inject_Z_opp;
-    change (inject_Z 1) with 1%Q; change (inject_Z f) with (f # 1);
+    repeat (progress (unfold Qcmult, Qcplus, Qcminus, Qcopp, Q2Qc; cbn [this]; rewrite ?Qred_correct));
+    unfold Z.sub; rewrite ?inject_Z_plus, ?inject_Z_mult, ?inject_Z_opp; unfold inject_Z;
     ring.
 Qed.
 
 (* ------------------------------------------------------------------ fourier_resample *)
+(* both branches of _shift_center_index are floor(n / 2) *)
+Lemma sci_half k : shift_center_index k = (k / 2)%nat.
+Proof. unfold shift_center_index. parity k; lia. Qed.
+
+Lemma gen_sci_half n : 0 <= n -> gen_shift_center_index n = n / 2.
+Proof.
+  intros Hn. rewrite gen_shift_center_index_eq_model, sci_half by lia.
+  rewrite Nat2Z.inj_div, Z2Nat.id by lia. reflexivity.
+Qed.
+
+
+Ltac conjs := repeat match goal with |- _ /\ _ => split end.
+
+Ltac intro_lt := try match goal with |- (_ < _)%nat -> _ => intro end.
+
+(* closed form of the translated indices (integer arithmetic only) *)
+Lemma gen_resample_croppad_spec n m :
+  0 < n -> 0 < m ->
+  gen_resample_croppad n true m =
+    (if m <? n then ((Some (n / 2 - m / 2), Some (n / 2 - m / 2 + m)), (0, 0))
+     else if n <? m then ((None, None), (m / 2 - n / 2, m - n - (m / 2 - n / 2)))
+     else ((None, None), (0, 0))) /\
+  gen_resample_croppad n false m = ((None, None), (0, 0)).
+Proof.
+  intros Hn Hm. unfold gen_resample_croppad. cbv zeta.
+  rewrite ?gen_sci_half by lia. unfold gen_shift_center_index.
+  split; split_tests; leaf.
+Qed.
+
+Lemma norm_idx_id l v : 0 <= v <= l -> norm_idx l v = v.
+Proof. intros H. unfold norm_idx. destruct (v <? 0) eqn:E; lia. Qed.
+
+Lemma slice_bounds_some len a b :
+  0 <= a <= b -> b <= Z.of_nat len -> slice_bounds len (Some a, Some b) = (Z.to_nat a, Z.to_nat b).
+Proof.
+  intros H1 H2. unfold slice_bounds. cbv zeta. cbn [fst snd].
+  rewrite !norm_idx_id by lia. f_equal. lia.
+Qed.
+
+Lemma slice_bounds_none len : slice_bounds len (None, None) = (0%nat, len).
+Proof. unfold slice_bounds. cbv zeta. cbn [fst snd]. f_equal; lia. Qed.
+
 (* the centred crop / zero-pad of the shifted spectrum: slicing and padding with the TRANSLATED
-   indices is the model's [croppad]; the result has the requested length *)
+   indices is the model's [croppad] (for every ring, spectrum and index); the result has the
+   requested length; an axis that is not resampled is left alone *)
 Lemma gen_resample_croppad_eq_model :
   forall (R : Type) (rO : R) (n m : Z) (S : nat -> R) (i : nat),
     0 < n -> 0 < m ->
@@ -188,12 +235,15 @@ Lemma gen_resample_croppad_eq_model :
     slice_pad_len (Z.to_nat n) (gen_resample_croppad n false m) = n.
 Proof.
   intros R rO n m S i Hn Hm.
-  unfold gen_resample_croppad. cbv zeta.
-  rewrite ?gen_shift_center_index_eq_model by lia.
-  unfold gen_shift_center_index, slice_pad, slice_pad_len, croppad, shift_center_index, slice_bounds, norm_idx.
-  cbv zeta.
-  parity (Z.to_nat n); parity (Z.to_nat m);
-    (repeat split; [intros Hi | | | | intros Hi |]);
-    split_tests; cbn [fst snd] in *; split_tests; cbn [fst snd] in *;
-    try la; try (exfalso; lia).
+  destruct (gen_resample_croppad_spec n m Hn Hm) as [-> ->].
+  unfold slice_pad, slice_pad_len, croppad. rewrite !sci_half. cbv zeta.
+  destruct (m <? n) eqn:E1; [| destruct (n <? m) eqn:E2]; cbn [fst snd].
+  - (* crop *)
+    rewrite slice_bounds_some, slice_bounds_none by lia. cbn [fst snd].
+    conjs; intro_lt; split_tests; try la; try (exfalso; lia).
+  - (* pad *)
+    rewrite slice_bounds_none. cbn [fst snd].
+    conjs; intro_lt; split_tests; try la; try (exfalso; lia).
+  - rewrite slice_bounds_none. cbn [fst snd].
+    conjs; intro_lt; split_tests; try la; try (exfalso; lia).
 Qed.
